@@ -1,9 +1,13 @@
-"""C01 — decided on the shared sim corpus (SimTrace.tla) and the exhaustive Simulator model; see simprops.py / simmc.py."""
-from . import simprops
+"""C01 — decided by (M) exhaustive TLC exploration of the simulator loop under an arbitrary policy
+(SimMC.tla, harness/simmc.py) and (T) validation of recorded traces of the real Simulator against
+Simulator.tla (SimTrace.tla, harness/simprops.py)."""
+from . import simmc, simprops
 from .common import CheckResult
 
 
 def run(tier):
     res = CheckResult("C01", tier)
+    simmc.check("C01", tier, res)
     simprops.check("C01", tier, res)
+    res.assumptions += simprops.ASSUMPTIONS
     return res
